@@ -107,7 +107,8 @@ pub fn address(g: &mut G) -> Address {
         0 => EnterpriseAddress::new(net, &g.nest(credential)).to_address(),
         1 => BaseAddress::new(net, &g.nest(credential), &g.nest(credential)).to_address(),
         2 => RewardAddress::new(net, &g.nest(credential)).to_address(),
-        _ => { let p = Pointer::new_pointer(&BigNum::from(g.below(1 << 20)), &BigNum::from(g.below(300)), &BigNum::from(g.below(300)));
+        // slot / tx index / certificate index over the whole u64 range (10-group variable-length naturals at >= 2^63)
+        _ => { let p = Pointer::new_pointer(&g.bn(), &g.bn(), &g.bn());
                PointerAddress::new(net, &g.nest(credential), &p).to_address() }
     }
 }
